@@ -115,7 +115,7 @@ func newC04Env(c *vf.Ctx, r *rand.Rand, realTCP bool) (*c04Env, error) {
 	if err != nil {
 		return nil, err
 	}
-	for _, m := range []FrontMode{MountPlain, MountLegacy, MountDiscovery} {
+	for _, m := range []FrontMode{MountPlain, MountLegacy, MountDiscovery, MountStream} {
 		f, err := NewFront(c, e.id, e.pub, m, "")
 		if err != nil {
 			return nil, err
@@ -229,7 +229,7 @@ func runC04(c *vf.Ctx) {
 			continue
 		}
 		r := c.Rand(sub, i)
-		k := c04Case{Announced: r.Intn(3) == 0, Mount: []FrontMode{MountPlain, MountPlain, MountLegacy, MountDiscovery}[r.Intn(4)],
+		k := c04Case{Announced: r.Intn(3) == 0, Mount: []FrontMode{MountPlain, MountPlain, MountLegacy, MountDiscovery, MountStream}[r.Intn(5)],
 			Baseline: []string{"synced", "set-latest"}[r.Intn(2)]}
 		if r.Intn(3) == 0 {
 			k.Seg = int64(1 + r.Intn(3))
@@ -241,6 +241,9 @@ func runC04(c *vf.Ctx) {
 			k.Addrs = "dead-live"
 		default:
 			k.Addrs = "one"
+		}
+		if k.Mount == MountStream {
+			k.Addrs = "one" // (a libp2p peer is dialled as a whole; there is no per-address failover to script)
 		}
 		nf := 1
 		if r.Intn(4) == 0 {
@@ -375,7 +378,12 @@ func (ru *c04Run) syncOnce(front *Front, head cid.Cid, withCtxCancel bool) c04Ob
 			ru.ctxStop = stop
 		}
 		ru.mu.Unlock()
-		_, o.err = ru.sub.SyncAdChain(ctx, ru.pi)
+		// (bounded progress: against any publisher behaviour the call ends — with a result or an error — long before this)
+		if v, dump := vf.Watch(150*time.Second, func() { _, o.err = ru.sub.SyncAdChain(ctx, ru.pi) }); v != vf.Returned {
+			stop()
+			o.err = fmt.Errorf("%w\n%s", errSyncDidNotEnd, dump)
+			time.Sleep(2 * time.Second) // the cancelled call gets a chance to unwind
+		}
 		stop()
 		// any notification of this sync has been handed to the distributor before SyncAdChain returned;
 		// give the distributor a chance and collect without blocking
@@ -419,7 +427,20 @@ func c04One(c *vf.Ctx, sub string, i int, env *c04Env, k c04Case) {
 	if k.Announced {
 		opts = append(opts, dagsync.RecvAnnounce(""))
 	}
-	s, err := newSubscriber(ru.dst, opts...)
+	var s *dagsync.Subscriber
+	var err error
+	if k.Mount == MountStream {
+		// the publisher is reached over libp2p streams: the subscriber has a libp2p host of its own
+		subHost, herr := newHost()
+		if herr != nil {
+			c.Inconclusive(sub, i, "host-create", herr.Error(), nil)
+			return
+		}
+		defer subHost.Close()
+		s, err = dagsync.NewSubscriber(subHost, ru.dst.Lsys, opts...)
+	} else {
+		s, err = newSubscriber(ru.dst, opts...)
+	}
 	if err != nil {
 		c.Fail(sub, i, "harness-subscriber", err.Error(), nil)
 		return
@@ -491,6 +512,10 @@ func c04One(c *vf.Ctx, sub string, i int, env *c04Env, k c04Case) {
 		phases = append(phases, fmt.Sprintf("faulty sync: err=%v", faulty.err))
 		if faulty.err == errNoNotification {
 			c.Fail(sub, i, "no-notification-for-announced-sync:"+k.classKey(), "", wit())
+			return
+		}
+		if errors.Is(faulty.err, errSyncDidNotEnd) {
+			c.Fail(sub, i, "sync-neither-completes-nor-fails:"+k.classKey(), faulty.err.Error(), wit())
 			return
 		}
 		if len(faulty.storeBad) > 0 {
@@ -824,5 +849,6 @@ func c04Unusable(c *vf.Ctx) {
 	}
 }
 
+var errSyncDidNotEnd = errors.New("the sync neither completed nor failed within 150 s")
 var errAnnouncementDropped = errors.New("announcement was dropped before it reached the subscriber's watcher")
 var errHandledWithoutNotification = errors.New("announcement handled without a notification")
